@@ -123,6 +123,8 @@ def menu(f, with_queries=False, full=True):
         if nv:
             add('eval', True, expr='%s = %s * 2' % (nv, numvars[0]))
             add('eval', True, expr='%s = %s + 1' % (nv, numvars[-1]), copyall=True)
+            # a plain assignment: the new variable must not be the old one
+            add('eval', True, expr='%s = %s' % (nv, numvars[0]))
     add('binop', noncoord_num and (not conv or flags_are_coords), o='+')
     add('binop', noncoord_num and (not conv or flags_are_coords), o='/')
     if 'x' in vars_ and vars_['x'][0] == ('x',) and dims.get('x', 0) >= 2 \
@@ -137,6 +139,9 @@ def menu(f, with_queries=False, full=True):
             np.atleast_1d(f.VGLVLS).size == dims['LAY'] + 1 and type(f).__name__ != 'uamiv':
         add('interpSigma', True, vglvls=[1., .5, 0.], vgtop=4000.)
     add('from_ncf', True)
+    if len(vars_) >= 2 and not conv:
+        # merge([one-variable subset, this file]): the other variables are taken from this file
+        add('merge', True, first=list(vars_)[0])
     if full:
         add('getvarpnc', True)
         if dn:
@@ -210,6 +215,8 @@ def do_op(f, op):
             return ioapi_base.from_ncf(f)
         return P.PseudoNetCDFFile.from_ncf(f)
     from PseudoNetCDF.core import _functions as F
+    if name == 'merge':
+        return F.merge([f.subsetVariables([op['first']]), f])
     if name == 'getvarpnc':
         return F.getvarpnc(f, None)
     if name == 'removesingleton_f':
